@@ -3,6 +3,7 @@
 package c07rt
 
 import (
+	"context"
 	"fmt"
 	"math/rand/v2"
 	"strings"
@@ -85,6 +86,8 @@ type c07Surface interface {
 	Acquire(ch *c07Chan) error
 	Release(ch *c07Chan) error
 	Churn(n int) error
+	// SetCtx installs the context used by the following calls on ch (nil = live).
+	SetCtx(ch *c07Chan, ctx context.Context)
 
 	Append(ch *c07Chan, mode c07Mode, baseSeq uint64, recs []c07Rec) (base, last uint64, err error)
 	Apply(ch *c07Chan, baseSeq uint64, recs []c07Rec, ckpt *c07Ckpt, strict bool) (last uint64, err error)
@@ -121,6 +124,10 @@ type c07Params struct {
 	AuditCap   int // above this many rows point lookups are sampled
 	AuditEvery int // audit only every k-th mutating op (0/1 = every op)
 	ChurnOneIn int // a lease close evicts the warm cache once in this many times (default 6)
+	// CancelOneIn: one op in this many runs under a countdown context that
+	// reports cancellation after the N-th poll (0 = never). After a barrier
+	// the next op is armed with probability 1/2.
+	CancelOneIn int
 	// Weights of the op kinds in run(): append, apply, truncate, trim, adopt,
 	// ckpt, lease, reopen, read. Zero value = C07 default mix.
 	Weights [9]int
@@ -129,25 +136,28 @@ type c07Params struct {
 // c07Driver runs one generated history against one or more surfaces that
 // share a single reference model.
 type c07Driver struct {
-	r      *verifkit.Run
-	rng    *rand.Rand
-	node   *c07Node
-	chans  []*c07Chan
-	surfs  []c07Surface
-	q      c07Quirks // intersection of capabilities
-	p      c07Params
-	fresh  uint64
-	freshP uint64
-	trace  []string
-	dead   bool
-	muts   int
-	kinds  []string // op-kind sequence (fingerprint)
+	r                   *verifkit.Run
+	rng                 *rand.Rand
+	node                *c07Node
+	chans               []*c07Chan
+	surfs               []c07Surface
+	q                   c07Quirks // intersection of capabilities
+	p                   c07Params
+	fresh               uint64
+	freshP              uint64
+	trace               []string
+	dead                bool
+	muts                int
+	armN                int64 // pending cancellation fault: cancel after armN polls (-1 = none)
+	armNextAfterBarrier bool
+	scanCD              *c07Countdown
+	kinds               []string // op-kind sequence (fingerprint)
 	// C08 bookkeeping: what kinds of duplicate rejections / re-acceptances the history contained
 	dupAfter map[string]int
 	// beforeClose runs just before the engine is closed for a reopen (evidence hooks)
 	beforeClose func()
-	uids   []string
-	nos    []string
+	uids        []string
+	nos         []string
 }
 
 func c07Intersect(surfs []c07Surface) c07Quirks {
@@ -179,7 +189,7 @@ func c07Intersect(surfs []c07Surface) c07Quirks {
 }
 
 func c07NewDriver(r *verifkit.Run, rng *rand.Rand, node *c07Node, chans []*c07Chan, surfs []c07Surface, p c07Params) *c07Driver {
-	d := &c07Driver{r: r, rng: rng, node: node, chans: chans, surfs: surfs, q: c07Intersect(surfs), p: p}
+	d := &c07Driver{r: r, rng: rng, node: node, chans: chans, surfs: surfs, q: c07Intersect(surfs), p: p, armN: -1}
 	if d.p.AuditCap == 0 {
 		d.p.AuditCap = 400
 	}
@@ -520,8 +530,26 @@ func (d *c07Driver) doAppend(ch *c07Chan, mode c07Mode, recs []c07Rec, baseChoic
 		wantBase, wantLast = ch.LEO+1, ch.LEO+uint64(len(recs))
 	}
 	for _, s := range d.surfs {
+		cd := d.arm(ch, "append")
 		base, last, err := s.Append(ch, mode, baseSeq, recs)
 		w := map[string]any{"chan": ch.Key, "mode": mode.String(), "n": len(recs), "base_seq": baseSeq, "model_leo": ch.LEO, "why": why, "first": c07Brief(c07First(proj)), "barriers": ch.Barriers}
+		if d.disarm(ch, cd, "append", err) {
+			// the append reported the context error: nothing may have been
+			// stored unless the whole accepted batch was
+			w["countdown_n"] = cd.n
+			applied, ok := d.reconcileLog(s, ch, "append", ch.LEO+uint64(len(recs)), want == "ok" && len(recs) > 0, w)
+			if !ok {
+				return false
+			}
+			if mode != c07Trusted {
+				ch.sinceBarrier++
+			}
+			if applied {
+				d.node.applyAppend(ch, proj)
+			}
+			d.audit(ch)
+			return applied
+		}
 		if want == "conflict" && err == nil && (why == "stored-pair" || why == "batch-pair" || why == "stored-id" || why == "batch-id") {
 			// the refuting event of C08: a duplicate was stored
 			w["holder"], w["got_base"], w["got_last"] = c07Brief(holder), base, last
@@ -543,6 +571,9 @@ func (d *c07Driver) doAppend(ch *c07Chan, mode c07Mode, recs []c07Rec, baseChoic
 		}
 	}
 	d.noteDup(ch, mode, want, why, holder, proj)
+	if mode != c07Trusted {
+		ch.sinceBarrier++
+	}
 	if want == "ok" {
 		d.node.applyAppend(ch, proj)
 		d.r.Count("rows.appended", len(recs))
@@ -658,8 +689,34 @@ func (d *c07Driver) stepApply(ch *c07Chan) {
 	d.kind("apply")
 	d.tracef("apply strict=%v chan=%s n=%d base=%d leo=%d ck=%v want=%s(%s)", strict, ch.Key, len(recs), baseSeq, ch.LEO, ck, want, why)
 	for _, s := range d.surfs {
+		cd := d.arm(ch, "apply")
 		last, err := s.Apply(ch, baseSeq, recs, ck, strict)
 		w := map[string]any{"chan": ch.Key, "n": len(recs), "base_seq": baseSeq, "model_leo": ch.LEO, "why": why, "ckpt": ck}
+		if d.disarm(ch, cd, "apply", err) {
+			w["countdown_n"] = cd.n
+			applied, ok := d.reconcileLog(s, ch, "apply", ch.LEO+uint64(len(recs)), want == "ok" && len(recs) > 0, w)
+			if !ok {
+				return
+			}
+			if applied {
+				d.node.applyAppend(ch, proj)
+				if ck != nil {
+					ch.Ckpt = *ck
+					ch.Ckpt.Present = true
+				}
+			} else if ck != nil && want == "ok" {
+				// a records-free or unapplied request may still have stored its checkpoint
+				if got, cerr := s.Checkpoint(ch); cerr == nil && got != ch.Ckpt {
+					want := *ck
+					want.Present = true
+					if len(recs) == 0 && got == want {
+						ch.Ckpt = want
+					}
+				}
+			}
+			d.audit(ch)
+			return
+		}
 		if !d.checkClass(s, "apply", want, err, w) {
 			return
 		}
@@ -795,7 +852,19 @@ func (d *c07Driver) stepTruncate(ch *c07Chan) {
 	d.kind("truncate")
 	d.tracef("truncate chan=%s to=%d leo=%d ret=%+v want=%s", ch.Key, to, ch.LEO, ch.Ret, want)
 	for _, s := range d.surfs {
+		cd := d.arm(ch, "truncate")
 		err := s.Truncate(ch, to)
+		if d.disarm(ch, cd, "truncate", err) {
+			applied, ok := d.reconcileLog(s, ch, "truncate", to, want == "ok" && to < ch.LEO, map[string]any{"chan": ch.Key, "to": to, "countdown_n": cd.n})
+			if !ok {
+				return
+			}
+			if !applied {
+				d.audit(ch)
+				return
+			}
+			continue
+		}
 		if !d.checkClass(s, "truncate", want, err, map[string]any{"chan": ch.Key, "to": to, "model_leo": ch.LEO, "ret": ch.Ret}) {
 			return
 		}
@@ -897,8 +966,32 @@ func (d *c07Driver) stepTrim(ch *c07Chan) {
 	d.tracef("trim chan=%s through=%d max=%d/%d leo=%d ret=%+v want=%s del=%d remain=%v", ch.Key, through, maxMsgs, maxBytes, ch.LEO, ch.Ret, want, len(del), remain)
 	more := remain
 	for _, s := range d.surfs {
+		cd := d.arm(ch, "trim")
 		res, err := s.Trim(ch, through, maxMsgs, maxBytes)
 		w := map[string]any{"chan": ch.Key, "through": through, "max_msgs": maxMsgs, "max_bytes": maxBytes, "model_leo": ch.LEO, "ret": ch.Ret, "got": res, "want_deleted": len(del), "want_remain": remain}
+		if d.disarm(ch, cd, "trim", err) {
+			// decide by reading the retention state back: unchanged, or exactly
+			// the state after the complete trim (never a partial one)
+			got, rerr := s.Retention(ch)
+			d.r.Eval(1)
+			if rerr != nil {
+				d.violate(s.Quirks().Name+":trim:retention-error-after-cancelled-op", w)
+				return
+			}
+			if got == ch.Ret || want != "ok" || through == 0 {
+				d.r.Count("cancel.no_effect.trim", 1)
+				d.audit(ch)
+				return
+			}
+			d.r.Count("cancel.took_effect.trim", 1)
+			more = remain
+			if got.Physical != through {
+				more = true
+			}
+			d.node.applyTrim(ch, through, del, more, adoptByTrim)
+			d.audit(ch)
+			return
+		}
 		if !d.checkClass(s, "trim", want, err, w) {
 			return
 		}
@@ -958,6 +1051,8 @@ func (d *c07Driver) stepLease(ch *c07Chan) {
 		}
 	}
 	ch.Barriers = append(ch.Barriers, barrier)
+	ch.sinceBarrier = 0
+	d.armNextAfterBarrier = true
 	if d.ensureLease(ch) {
 		d.audit(ch)
 	}
@@ -996,10 +1091,12 @@ func (d *c07Driver) stepReopen() {
 	for _, ch := range d.chans {
 		ch.Leased = false
 		ch.Barriers = append(ch.Barriers, "reopen")
+		ch.sinceBarrier = 0
 		if ch.appendAfterCut {
 			ch.reopenAfterAppend = true
 		}
 	}
+	d.armNextAfterBarrier = true
 	d.auditAll()
 }
 
@@ -1033,7 +1130,14 @@ func (d *c07Driver) stepRead(ch *c07Chan) {
 	}
 	rev := d.rng.IntN(2) == 0
 	for _, s := range d.surfs {
-		if !d.compareScan(s, ch, from, limit, maxBytes, rev) {
+		cd := d.arm(ch, "scan")
+		d.scanCD = cd
+		ok := d.compareScan(s, ch, from, limit, maxBytes, rev)
+		d.scanCD = nil
+		if cd != nil {
+			s.SetCtx(ch, nil)
+		}
+		if !ok {
 			return
 		}
 	}
@@ -1048,6 +1152,12 @@ func (d *c07Driver) compareScan(s c07Surface, ch *c07Chan, from uint64, limit, m
 	dir := "fwd"
 	if rev {
 		dir = "rev"
+	}
+	if d.scanCD != nil && c07IsCancel(err) {
+		// a scan under a countdown context may report the context error, but
+		// must never return a silently shortened result
+		d.r.Count("cancel.returned_ctx_error.scan", 1)
+		return true
 	}
 	if err != nil {
 		w["err"] = err.Error()
@@ -1376,6 +1486,18 @@ func (d *c07Driver) run() {
 	}
 	for i := 0; i < d.p.Ops && !d.dead; i++ {
 		ch := d.chans[d.rng.IntN(len(d.chans))]
+		d.armN = -1
+		if d.p.CancelOneIn > 0 && len(d.surfs) == 1 {
+			if d.rng.IntN(d.p.CancelOneIn) == 0 || (d.armNextAfterBarrier && d.rng.IntN(2) == 0) {
+				d.armN = d.pickCancelN(ch)
+			}
+			d.armNextAfterBarrier = false
+			if d.armN >= 0 && d.rng.IntN(8) == 0 {
+				d.armN = -1
+				d.stepLookupsCancelled(ch)
+				continue
+			}
+		}
 		x := d.rng.IntN(total)
 		k := 0
 		for ; k < len(w)-1; k++ {
@@ -1443,6 +1565,7 @@ func (d *c07Driver) barrier(ch *c07Chan, kind string) {
 	}
 	d.tracef("barrier %s chan=%s", kind, ch.Key)
 	ch.Barriers = append(ch.Barriers, kind)
+	ch.sinceBarrier = 0
 	d.ensureLease(ch)
 }
 
@@ -1493,6 +1616,19 @@ func (d *c07Driver) truncateExact(ch *c07Chan, to uint64) {
 		ch.Ret.RetainedMax = to
 	}
 	d.audit(ch)
+}
+
+// pickCancelN chooses after how many context polls the fault fires: mostly
+// very early, sometimes somewhere inside a scan over the channel's rows.
+func (d *c07Driver) pickCancelN(ch *c07Chan) int64 {
+	switch x := d.rng.IntN(10); {
+	case x < 4:
+		return int64(d.rng.IntN(5))
+	case x < 7:
+		return int64(d.rng.IntN(40))
+	default:
+		return int64(d.rng.IntN(2*len(ch.Rows) + 20))
+	}
 }
 
 // fingerprint is the abstract op-kind sequence with run lengths removed.
